@@ -567,3 +567,243 @@ def gen_ezsp_fn() -> str:
         out.append(_header_rx(cls, tag))
         out.append("\n")
     return "".join(out)
+
+
+# ==================================================================================================
+# ASH receive-side methods of AshProtocol (synchronous, state in self attributes, effects = calls)
+# ==================================================================================================
+ASH_STATE = [("_rx_seq", "rx_seq", "N"), ("_tx_seq", "tx_seq", "N"), ("_ncp_state", "failed", "bool"), ("_ncp_reset_code", "code", "N")]
+NONE_CODE = 256       # self._ncp_reset_code = None (reset codes are bytes)
+
+
+class MethodTr(Tr):
+    """statements of a synchronous AshProtocol method: self attributes are state variables, recognised calls
+    append an effect, calls of other translated methods are inlined as calls of their Gallina counterpart"""
+
+    def __init__(self, where, consts, params, known_methods):
+        types = {c: t for _, c, t in ASH_STATE}
+        types.update({p: t for p, t in params.items()})
+        super().__init__(where, consts, types)
+        self.types["eff"] = "effs"
+        self.known = known_methods
+
+    def norm(self, e):
+        """frame.<field> -> <field>; self._attr -> state variable"""
+        attrs = {a: c for a, c, _ in ASH_STATE}
+
+        class N(ast.NodeTransformer):
+            def visit_Attribute(s, n):
+                s.generic_visit(n)
+                if isinstance(n.value, ast.Name) and n.value.id == "frame":
+                    return ast.copy_location(ast.Name(id=n.attr, ctx=ast.Load()), n)
+                if isinstance(n.value, ast.Name) and n.value.id == "self" and n.attr in attrs:
+                    return ast.copy_location(ast.Name(id=attrs[n.attr], ctx=ast.Load()), n)
+                return n
+        return N().visit(e)
+
+    def ex(self, e):
+        if isinstance(e, ast.BinOp) and isinstance(e.op, (ast.Add, ast.Mod)):
+            if self.ty(e.left) != "N" or self.ty(e.right) != "N":
+                self.refuse(e, "non-integer operand")
+            op = "N.add" if isinstance(e.op, ast.Add) else "N.modulo"
+            return f"({op} {self.ex(e.left)} {self.ex(e.right)})"
+        if isinstance(e, ast.Constant) and e.value is None:
+            return str(NONE_CODE)
+        return super().ex(e)
+
+    def ty(self, e):
+        if isinstance(e, ast.Constant) and e.value is None:
+            return "N"
+        return super().ty(e)
+
+    def effect(self, call: ast.Call):
+        """Gallina term for a recognised effect call, or ('inline', name, args)"""
+        f = ast.unparse(call.func)
+        kw = {k.arg: k.value for k in call.keywords}
+
+        def frame_term(c):
+            if not (isinstance(c, ast.Call) and isinstance(c.func, ast.Name) and c.func.id in ("AckFrame", "NakFrame") and not c.args):
+                self.refuse(c, "frame constructor")
+            k = {x.arg: x.value for x in c.keywords}
+            if set(k) != {"res", "ncp_ready", "ack_num"}:
+                self.refuse(c, "frame constructor fields")
+            ctor = "Ack" if c.func.id == "AckFrame" else "Nak"
+            return f"({ctor} {self.ex(k['res'])} {self.ex(k['ncp_ready'])} {self.ex(k['ack_num'])})"
+        if f == "self._write_frame" and len(call.args) == 1:
+            if not kw:
+                return f"PWrite {frame_term(call.args[0])}"
+            if set(kw) == {"prefix"} and ast.unparse(kw["prefix"]) == "(Reserved.CANCEL,)":
+                return f"PWriteCancel {frame_term(call.args[0])}"
+        if f == "self._ezsp_protocol.data_received" and len(call.args) == 1 and not kw and ast.unparse(call.args[0]) == "ezsp_frame":
+            return "PUp ezsp_frame"
+        if f == "self._ezsp_protocol.reset_received" and len(call.args) == 1 and not kw:
+            return f"PResetUp {self.ex(call.args[0])}"
+        if f == "self._change_ack_timeout" and len(call.args) == 1 and ast.unparse(call.args[0]) == "T_RX_ACK_INIT":
+            return "PAckTimeoutInit"
+        if f == "self._cancel_pending_data_frames" and len(call.args) == 1 and isinstance(call.args[0], ast.Call):
+            c = call.args[0]
+            cf = ast.unparse(c.func)
+            ck = {x.arg: x.value for x in c.keywords}
+            if cf == "NotAcked" and set(ck) == {"frame"} and not c.args:
+                return "PCancelPending CNotAcked"
+            if cf == "NcpFailure" and set(ck) == {"code"} and not c.args:
+                return f"PCancelPending (CFailure {self.ex(ck['code'])})"
+        if f == "self._handle_ack" and len(call.args) == 1 and ast.unparse(call.args[0]) == "frame":
+            return "PHandleAck ack_num"
+        if f.startswith("self.") and f[5:] in self.known and not kw:
+            return ("inline", f[5:], [self.ex(a) for a in call.args])
+        self.refuse(call, "call with no modelled effect")
+
+    def stmts(self, body, state, loopvar=None):
+        if not body:
+            return "(" + ", ".join(state) + ")"
+        s, rest = body[0], body[1:]
+        if isinstance(s, ast.Expr) and isinstance(s.value, ast.Constant):
+            return self.stmts(rest, state)
+        if isinstance(s, ast.Pass):
+            return self.stmts(rest, state)
+        if isinstance(s, ast.Expr) and isinstance(s.value, ast.Call):
+            if ast.unparse(s.value.func).startswith("_LOGGER."):
+                return self.stmts(rest, state)
+            eff = self.effect(s.value)
+            if isinstance(eff, tuple):
+                _, name, args = eff
+                return (f"let '({', '.join(state)}) := py_{name}_k ({', '.join(state)}) {' '.join(args)} in\n"
+                        f"{self.stmts(rest, state)}")
+            return f"let eff := eff ++ [{eff}] in\n{self.stmts(rest, state)}"
+        if isinstance(s, ast.Assign) and len(s.targets) == 1 and isinstance(s.targets[0], ast.Name):
+            name = s.targets[0].id
+            if name not in self.types:
+                self.refuse(s, "assignment to an unknown variable")
+            if name == "failed":
+                v = ast.unparse(s.value)
+                if v not in ("NcpState.FAILED", "NcpState.CONNECTED"):
+                    self.refuse(s, "state value")
+                return f"let failed := {'true' if v.endswith('FAILED') else 'false'} in\n{self.stmts(rest, state)}"
+            if self.ty(s.value) != self.types[name]:
+                self.refuse(s, "type of the assigned value")
+            return f"let {name} := {self.ex(s.value)} in\n{self.stmts(rest, state)}"
+        if isinstance(s, ast.If):
+            a = self.stmts(list(s.body) + rest, state)
+            b = self.stmts(list(s.orelse) + rest, state)
+            return f"if {self.cond(s.test)} then\n{textwrap.indent(a, '  ')}\nelse\n{textwrap.indent(b, '  ')}"
+        self.refuse(s)
+
+
+FRAME_PARAMS = {
+    "DataFrame": [("frm_num", "N"), ("re_tx", "N"), ("ack_num", "N"), ("ezsp_frame", "payload")],
+    "AckFrame": [("res", "N"), ("ncp_ready", "N"), ("ack_num", "N")],
+    "NakFrame": [("res", "N"), ("ncp_ready", "N"), ("ack_num", "N")],
+    "RstFrame": [],
+    "RStackFrame": [("version", "N"), ("reset_code", "N")],
+    "ErrorFrame": [("version", "N"), ("reset_code", "N")],
+}
+FRAME_CTOR = {"DataFrame": "Data", "AckFrame": "Ack", "NakFrame": "Nak", "RstFrame": "Rst", "RStackFrame": "Rstack", "ErrorFrame": "Error"}
+
+
+def _method(cls, name, params, consts, known):
+    fn = cls.__dict__[name]
+    node = _fn_ast(fn)
+    where = f"{cls.__name__}.{name} (source)"
+    got = [a.arg for a in node.args.args if a.arg != "self"]
+    coqty = {"N": "N", "payload": "list N"}
+    if got != ["frame"]:
+        params = [(p, "N") for p in got]
+    tr = MethodTr(where, consts, dict(params), known)
+    state = [c for _, c, _ in ASH_STATE] + ["eff"]
+    term = tr.stmts([tr.norm(s) for s in node.body], state)
+    args = " ".join(f"({p} : {coqty[t]})" for p, t in params)
+    sty = "N * N * bool * N * list py_eff"
+    return (f"(* from the source of {cls.__name__}.{name} *)\n"
+            f"Definition py_{name}_k (s : {sty}) {args} : {sty} :=\n"
+            f"  let '({', '.join(state)}) := s in\n{textwrap.indent(term, '  ')}.\n\n")
+
+
+def gen_ash_rx_fn() -> str:
+    import bellows.ash as ash
+
+    consts = {f"Reserved.{m.name}": int(m) for m in ash.Reserved}
+    P = ash.AshProtocol
+    out = ["(* GENERATED by harness/pysrc.py from the SOURCE TEXT of AshProtocol's receive-side methods -- do not edit *)\n"
+           "From Coq Require Import NArith Arith List Bool.\nImport ListNotations.\nRequire Import BV.gen.GenAsh BV.model.AshCodec.\nOpen Scope N_scope.\n\n"
+           "(* effects: calls made by the methods, in order *)\n"
+           "Inductive cancel_kind := CNotAcked | CFailure (code : N).\n"
+           "Inductive py_eff :=\n| PWrite (f : frame) | PWriteCancel (f : frame)      (* self._write_frame(frame [, prefix=(CANCEL,)]) *)\n"
+           "| PUp (payload : list N) | PResetUp (code : N)          (* self._ezsp_protocol.data_received / reset_received *)\n"
+           "| PAckTimeoutInit                                       (* self._change_ack_timeout(T_RX_ACK_INIT) *)\n"
+           "| PCancelPending (k : cancel_kind)                      (* self._cancel_pending_data_frames(NotAcked(..) | NcpFailure(code=..)) *)\n"
+           "| PHandleAck (ack_num : N).                             (* self._handle_ack(frame) *)\n"
+           f"(* state: (_rx_seq, _tx_seq, _ncp_state is FAILED, _ncp_reset_code with None = {NONE_CODE}, effects so far) *)\n\n"]
+    known = []
+    order = [("_enter_failed_state", None), ("data_frame_received", "DataFrame"), ("ack_frame_received", "AckFrame"),
+             ("nak_frame_received", "NakFrame"), ("rst_frame_received", "RstFrame"), ("rstack_frame_received", "RStackFrame"),
+             ("error_frame_received", "ErrorFrame")]
+    for name, fcls in order:
+        out.append(_method(P, name, FRAME_PARAMS[fcls] if fcls else [], consts, known))
+        known.append(name)
+    # frame_received: the isinstance chain
+    node = _fn_ast(P.frame_received)
+    body = [s for s in node.body if not (isinstance(s, ast.Expr) and (isinstance(s.value, ast.Constant) or ast.unparse(s.value).startswith("_LOGGER.")))]
+    if len(body) != 1 or not isinstance(body[0], ast.If):
+        raise GenError("AshProtocol.frame_received", "expected a single if/elif chain")
+    branches = []
+    cur = body[0]
+    while True:
+        t = cur.test
+        if not (isinstance(t, ast.Call) and ast.unparse(t.func) == "isinstance" and ast.unparse(t.args[0]) == "frame"):
+            raise GenError("AshProtocol.frame_received", f"unexpected test `{ast.unparse(t)}`")
+        fcls = ast.unparse(t.args[1])
+        calls = []
+        for s in cur.body:
+            if not (isinstance(s, ast.Expr) and isinstance(s.value, ast.Call) and ast.unparse(s.value.args[0] if s.value.args else s.value) == "frame"
+                    and ast.unparse(s.value.func).startswith("self.")):
+                raise GenError("AshProtocol.frame_received", f"unexpected statement `{ast.unparse(s)}`")
+            calls.append(ast.unparse(s.value.func)[5:])
+        branches.append((fcls, calls))
+        if len(cur.orelse) == 1 and isinstance(cur.orelse[0], ast.If):
+            cur = cur.orelse[0]
+        else:
+            if not (len(cur.orelse) == 1 and isinstance(cur.orelse[0], ast.Raise)):
+                raise GenError("AshProtocol.frame_received", "the chain must end in `raise`")
+            break
+    if sorted(b[0] for b in branches) != sorted(FRAME_CTOR):
+        raise GenError("AshProtocol.frame_received", f"classes handled: {[b[0] for b in branches]}")
+    # isinstance order matters only if one class derives from another
+    classes = {n: getattr(ash, n) for n in FRAME_CTOR}
+    for i, (a, _) in enumerate(branches):
+        for b, _ in branches[i + 1:]:
+            if issubclass(classes[b], classes[a]):
+                raise GenError("AshProtocol.frame_received", f"{b} is a subclass of {a}, which is tested first")
+    lines = []
+    for fcls, calls in branches:
+        ps = FRAME_PARAMS[fcls]
+        pat = FRAME_CTOR[fcls] + "".join(" " + p for p, _ in ps)
+        term = "s"
+        for c in calls:
+            if c == "_handle_ack":
+                term = f"(let '(rx_seq, tx_seq, failed, code, eff) := {term} in (rx_seq, tx_seq, failed, code, eff ++ [PHandleAck ack_num]))"
+            elif c in known:
+                term = f"(py_{c}_k {term}{''.join(' ' + p for p, _ in ps)})"
+            else:
+                raise GenError("AshProtocol.frame_received", f"call of unknown method {c}")
+        lines.append(f"  | {pat} => {term}")
+    out.append("(* from the source of AshProtocol.frame_received: the isinstance chain *)\n"
+               "Definition py_frame_received (st : N * N * bool * N) (f : frame) : N * N * bool * N * list py_eff :=\n"
+               "  let '(rx0, tx0, failed0, code0) := st in\n  let s := (rx0, tx0, failed0, code0, @nil py_eff) in\n  match f with\n"
+               + "\n".join(lines) + "\n  end.\n")
+    # _handle_ack and _cancel_pending_data_frames are pinned (dict / future operations)
+    pins = [("AshProtocol._handle_ack", _norm_body(P._handle_ack), """
+for ack_num_offset in range(-TX_K, 0):
+    ack_num = (frame.ack_num + ack_num_offset) % 8
+    fut = self._pending_data_frames.get(ack_num)
+    if fut is None or fut.done():
+        continue
+    self._pending_data_frames[ack_num].set_result(True)"""),
+            ("AshProtocol._cancel_pending_data_frames", _norm_body(P._cancel_pending_data_frames), """
+for fut in self._pending_data_frames.values():
+    if not fut.done():
+        fut.set_exception(exc)""")]
+    for nm, got, exp in pins:
+        if _dump(got) != _dump(exp):
+            raise GenError(nm, "source differs from the form the model mirrors:\n" + got)
+    return "".join(out)
